@@ -55,9 +55,9 @@ def main():
         tr["id"] = f"{name}:{sc['label']}"
         tr["global_rng_untouched"] = _global_rng_digest() == g0
         traces.append(tr)
-    with open(out + ".tmp", "w") as f:
+    with open(out + f".tmp{os.getpid()}", "w") as f:
         json.dump(traces, f)
-    os.replace(out + ".tmp", out)
+    os.replace(out + f".tmp{os.getpid()}", out)
 
 
 def _fill_uninitialised(byte):
